@@ -208,7 +208,11 @@ func (c *Controlled) Run(body func()) {
 				c.Degraded = true // worker blocked outside a hook: carry on with the others
 			}
 		}
-		<-bodyDone
+		// Whoever is still on its way to a hook (a worker that showed up after a fallback
+		// timeout and was never counted) must not park for good: let everything go from here on.
+		if finished < c.N {
+			c.Degraded = true
+		}
 		releaseAll()
 	}()
 
